@@ -113,9 +113,10 @@ const (
 )
 
 type notarState struct {
-	state int
-	val   notif
-	order string // "record-then-notify" | "notify-then-record"
+	state   int
+	val     notif
+	order   string // "record-then-notify" | "notify-then-record"
+	retried bool   // its write failed in an OnNotarizedBlocks call; it must be applied by a later one
 }
 
 type mbModel struct {
@@ -128,18 +129,47 @@ type mbModel struct {
 	history      []recInfo // every record ever attempted with this miniblock
 	tainted      bool      // a put_error fired in a RecordBlock that contained it and no lookup confirmed the latest record since
 	idempotentOK bool      // a re-record of cur's block is a repeated record of the same thing (no Restart, no fault in between)
+	dedupUnknown bool      // a failed record of cur's block may or may not have left its mark in the dedup cache
 	notar        [2]notarState
 	seen         [2][]notif
 }
 
+// txModel: one transaction hash. A transaction can be packed into different miniblocks by competing blocks; the lookup
+// must follow the most recent record that contained it.
+type txModel struct {
+	hash      []byte
+	owner     *mbModel   // miniblock of the most recent record that contained the transaction
+	hist      []*mbModel // every miniblock it was ever recorded in
+	ambiguous bool       // a repeated record of an older block re-committed it in another miniblock (see Assumptions): not asserted
+}
+
 func buildMb(id int, dir, ntx, typ int, self uint32, m marshal.Marshalizer, h hashing.Hasher, prefix string) *mbModel {
-	snd, rcv := shardsOf(dir, self)
-	mb := &block.MiniBlock{SenderShardID: snd, ReceiverShardID: rcv, Type: mbTypes[typ%len(mbTypes)]}
+	var txs [][]byte
 	for j := 0; j < ntx; j++ {
-		mb.TxHashes = append(mb.TxHashes, h.Compute(fmt.Sprintf("%s-%d-%d", prefix, id, j)))
+		txs = append(txs, h.Compute(fmt.Sprintf("%s-%d-%d", prefix, id, j)))
 	}
+	return buildMbTxs(id, dir, typ, txs, self, m, h)
+}
+
+func buildMbTxs(id int, dir, typ int, txs [][]byte, self uint32, m marshal.Marshalizer, h hashing.Hasher) *mbModel {
+	snd, rcv := shardsOf(dir, self)
+	mb := &block.MiniBlock{SenderShardID: snd, ReceiverShardID: rcv, Type: mbTypes[typ%len(mbTypes)], TxHashes: txs}
 	hash, _ := core.CalculateHash(m, h, mb)
 	return &mbModel{id: id, mb: mb, hash: hash, snd: snd, rcv: rcv}
+}
+
+// repackTxs: the transactions of a competing block's re-packed version of base (same direction and type, other composition).
+func repackTxs(base [][]byte, mode int, own []byte) [][]byte {
+	var txs [][]byte
+	switch {
+	case mode == 1 && len(base) >= 2:
+		txs = append(txs, base[:len(base)-1]...) // one transaction left out, another one packed instead
+	case mode == 2:
+		txs = append(txs, base[0]) // only the first transaction again
+	default:
+		txs = append(txs, base...) // one more transaction packed after the rollback
+	}
+	return append(txs, own)
 }
 
 // sides says which notarization sides a miniblock header found in the data of shard `container` stands for.
@@ -175,6 +205,37 @@ func genC46(r *simkit.Rand, tier string) *simkit.Plan {
 		p.Knobs[fmt.Sprintf("mb%d_ntx", i)] = int64(r.Range(1, 3))
 		p.Knobs[fmt.Sprintf("mb%d_type", i)] = int64(r.Intn(3))
 	}
+	// re-packed miniblocks: the last one or two miniblocks carry transactions of an earlier one in another composition
+	repackOf := make([]int, nMb)
+	for i := range repackOf {
+		repackOf[i] = -1
+	}
+	if r.Chance(0.5) {
+		for i := nMb - 1; i >= 1 && i >= nMb-2; i-- {
+			if i == nMb-1 || r.Chance(0.3) {
+				base := r.Intn(i)
+				if repackOf[base] >= 0 {
+					continue
+				}
+				repackOf[i] = base
+				p.Knobs[fmt.Sprintf("mb%d_repack_of", i)] = int64(base + 1)
+				p.Knobs[fmt.Sprintf("mb%d_repack_mode", i)] = int64(r.Intn(3))
+			}
+		}
+	}
+	// a block never holds a miniblock together with its re-packed version (a transaction is in a block once)
+	cleanMask := func(mask int64) int64 {
+		for i, b := range repackOf {
+			if b >= 0 && mask&(1<<uint(i)) != 0 && mask&(1<<uint(b)) != 0 {
+				if r.Chance(0.5) {
+					mask &^= 1 << uint(i)
+				} else {
+					mask &^= 1 << uint(b)
+				}
+			}
+		}
+		return mask
+	}
 	// blocks: heights (slots) with competing headers
 	nBlocks := r.Range(2, 6)
 	nSlots := r.Range(1, 3)
@@ -209,9 +270,18 @@ func genC46(r *simkit.Rand, tier string) *simkit.Plan {
 			if r.Chance(0.5) {
 				mask ^= 1 << uint(r.Intn(nMb))
 			}
+			for i, base := range repackOf { // the competing block packs the same transactions differently
+				if base >= 0 && r.Chance(0.5) {
+					hasI, hasB := mask&(1<<uint(i)) != 0, mask&(1<<uint(base)) != 0
+					if hasI != hasB {
+						mask ^= 1<<uint(i) | 1<<uint(base)
+					}
+				}
+			}
 		} else {
 			mask = int64(r.Range(1, (1<<uint(nMb))-1))
 		}
+		mask = cleanMask(mask)
 		if mask == 0 {
 			mask = 1 << uint(r.Intn(nMb))
 		}
@@ -298,17 +368,33 @@ func genC46(r *simkit.Rand, tier string) *simkit.Plan {
 	if r.Chance(0.3) {
 		p.Arm = "faults"
 		p.Faults = []string{"put_error"}
-		var recs []int
+		var recs, nots []int
 		for i := range out {
 			if out[i].Op == "record" {
 				recs = append(recs, i)
 			}
+			if out[i].Op == "notify" {
+				nots = append(nots, i)
+			}
 		}
-		for n := r.Range(1, 2); n > 0 && len(recs) > 0; n-- {
+		notifyFault := false
+		for n := r.Range(1, 2); n > 0; n-- {
+			if len(nots) > 0 && (len(recs) == 0 || r.Chance(0.45)) {
+				// transient write error: every write of patched metadata fails during this one OnNotarizedBlocks call
+				out[nots[r.Intn(len(nots))]].Fault = "put_error"
+				notifyFault = true
+				continue
+			}
+			if len(recs) == 0 {
+				continue
+			}
 			i := recs[r.Intn(len(recs))]
 			out[i].Fault = "put_error"
 			out[i].T = r.Intn(4)
 			out[i].FaultAt = r.Intn(4)
+		}
+		if notifyFault {
+			out = append(out, simkit.Step{Op: "notify"}) // faults have stopped: one more notification call
 		}
 	}
 	p.Steps = out
@@ -327,8 +413,20 @@ type world struct {
 	mbs    []*mbModel         // recorded-able miniblocks
 	ghosts map[int64]*mbModel // relevant or irrelevant miniblocks that are never recorded
 	scrs   bool
+	txs    map[string]*txModel
+	txList []*txModel // in order of first record (deterministic iteration)
 
 	competing, asserted, notarAsserted int
+}
+
+func (w *world) tx(hash []byte) *txModel {
+	if t, ok := w.txs[string(hash)]; ok {
+		return t
+	}
+	t := &txModel{hash: hash}
+	w.txs[string(hash)] = t
+	w.txList = append(w.txList, t)
+	return t
 }
 
 func (w *world) newRepo() bool {
@@ -367,7 +465,7 @@ func (w *world) ghost(id int64) *mbModel {
 func execC46(c *simkit.Ctx) bool {
 	quietOnce.Do(func() { _ = logger.SetLogLevel("*:NONE") })
 	p := c.Plan
-	w := &world{c: c, self: uint32(p.Knob("self", 0)), marsh: &marshal.GogoProtoMarshalizer{}, ghosts: map[int64]*mbModel{}, scrs: p.Knob("scrs", 0) == 1}
+	w := &world{c: c, self: uint32(p.Knob("self", 0)), marsh: &marshal.GogoProtoMarshalizer{}, ghosts: map[int64]*mbModel{}, scrs: p.Knob("scrs", 0) == 1, txs: map[string]*txModel{}}
 	if p.Knob("hasher", 0) == 1 {
 		w.hasher = sha256.NewSha256()
 	} else {
@@ -390,7 +488,18 @@ func execC46(c *simkit.Ctx) bool {
 		if ntx < 1 {
 			ntx = 1
 		}
-		w.mbs = append(w.mbs, buildMb(i, dir, ntx, int(p.Knob(fmt.Sprintf("mb%d_type", i), 0)), w.self, w.marsh, w.hasher, "tx"))
+		typ := int(p.Knob(fmt.Sprintf("mb%d_type", i), 0))
+		if base := int(p.Knob(fmt.Sprintf("mb%d_repack_of", i), 0)) - 1; base >= 0 && base < i {
+			b := w.mbs[base]
+			txs := repackTxs(b.mb.TxHashes, int(p.Knob(fmt.Sprintf("mb%d_repack_mode", i), 0)), w.hasher.Compute(fmt.Sprintf("tx-%d-own", i)))
+			m := buildMbTxs(i, 0, 0, txs, w.self, w.marsh, w.hasher)
+			// same shards and type as the miniblock whose transactions it re-packs
+			m.mb.SenderShardID, m.mb.ReceiverShardID, m.mb.Type, m.snd, m.rcv = b.snd, b.rcv, b.mb.Type, b.snd, b.rcv
+			m.hash, _ = core.CalculateHash(w.marsh, w.hasher, m.mb)
+			w.mbs = append(w.mbs, m)
+			continue
+		}
+		w.mbs = append(w.mbs, buildMb(i, dir, ntx, typ, w.self, w.marsh, w.hasher, "tx"))
 	}
 	if !w.newRepo() {
 		return false
@@ -453,11 +562,42 @@ func (w *world) record(step int, st *simkit.Step) {
 	rec := recInfo{block: bID, hash: hdrHash, epoch: epoch, nonce: nonce, round: round, step: step}
 	for _, m := range in {
 		m.history = append(m.history, rec)
+		sameBlock := !fired && m.cur != nil && m.cur.block == bID && m.cur.epoch == epoch
+		sameAsLast := sameBlock && m.idempotentOK   // the repository skips this record for sure
+		maybeSkipped := sameBlock && m.dedupUnknown // ... or perhaps
+		for _, h := range m.mb.TxHashes {
+			t := w.tx(h)
+			known := false
+			for _, x := range t.hist {
+				known = known || x == m
+			}
+			if !known {
+				t.hist = append(t.hist, m)
+			}
+			switch {
+			case sameAsLast && t.owner != m:
+				// the repeated record of the same block is skipped as a whole by the repository, so the index keeps the
+				// other miniblock: reported as a finding candidate, not asserted (see Assumptions)
+				t.ambiguous = true
+				c.Probe("repacked_tx_recommitted_by_repeated_record")
+			case sameAsLast:
+			case maybeSkipped && t.owner != m:
+				t.owner, t.ambiguous = m, true
+			case maybeSkipped:
+			default:
+				if t.owner != nil && t.owner != m && !fired {
+					c.Probe("tx_repacked_into_other_miniblock")
+					w.competing++
+				}
+				t.owner, t.ambiguous = m, false
+			}
+		}
 		if fired {
 			r := rec
 			m.cur = &r
 			m.tainted = true
 			m.idempotentOK = false
+			m.dedupUnknown = true
 			for s := range m.notar {
 				if m.notar[s].state != nsNone {
 					m.notar[s].state = nsLost
@@ -495,14 +635,25 @@ func (w *world) record(step int, st *simkit.Step) {
 		r := rec
 		m.cur = &r
 		m.idempotentOK = true
+		m.dedupUnknown = false
 	}
 }
 
 func (w *world) notify(step int, st *simkit.Step) {
 	c := w.c
+	firedBefore := c.Faults["put_error"]
+	if st.Fault == "put_error" {
+		w.disks[0].ArmAll("put_error") // transient: every write of patched metadata fails during this call
+	}
+	defer w.disks[0].Disarm()
 	if len(st.I) < 2 {
 		w.repo.OnNotarizedBlocks(metaShard, []data.HeaderHandler{}, [][]byte{})
-		c.Eventf("%d notify (no headers)", step)
+		w.disks[0].Disarm()
+		c.Eventf("%d notify (no headers) write_failures=%d", step, c.Faults["put_error"]-firedBefore)
+		if c.Faults["put_error"] > firedBefore {
+			w.writeFailed()
+			return // nothing could be written: every due notification has to stay pending
+		}
 		w.consume()
 		return
 	}
@@ -539,7 +690,9 @@ func (w *world) notify(step int, st *simkit.Step) {
 		}
 	}
 	w.repo.OnNotarizedBlocks(metaShard, []data.HeaderHandler{mbk}, [][]byte{metaHash})
-	c.Eventf("%d notify meta=%d nonce=%d own=%d shardinfo=%d", step, metaID, nonce, len(own), len(shardInfo))
+	w.disks[0].Disarm()
+	writeFailed := c.Faults["put_error"] > firedBefore
+	c.Eventf("%d notify meta=%d nonce=%d own=%d shardinfo=%d write_failures=%d", step, metaID, nonce, len(own), len(shardInfo), c.Faults["put_error"]-firedBefore)
 	for _, e := range append(own, shardInfo...) {
 		src, dst := sides(e.m.snd, e.m.rcv, e.container, w.self)
 		for s, on := range []bool{src, dst} {
@@ -561,7 +714,23 @@ func (w *world) notify(step int, st *simkit.Step) {
 			}
 		}
 	}
+	if writeFailed {
+		w.writeFailed()
+		return // nothing could be written: every due notification has to stay pending until the next call
+	}
 	w.consume()
+}
+
+// writeFailed: an OnNotarizedBlocks call in which no patched metadata could be written just ended.
+func (w *world) writeFailed() {
+	w.c.Probe("notification_write_failed_kept_pending")
+	for _, m := range w.mbs {
+		for s := range m.notar {
+			if m.notar[s].state == nsPending && m.cur != nil && !m.tainted {
+				m.notar[s].retried = true
+			}
+		}
+	}
 }
 
 // consume: an OnNotarizedBlocks call just ended; every pending notification of a miniblock that has a record is due.
@@ -573,6 +742,10 @@ func (w *world) consume() {
 				if m.notar[s].order == "notify-then-record" {
 					w.c.Probe("pending_notification_consumed_later")
 				}
+				if m.notar[s].retried {
+					m.notar[s].retried = false
+					w.c.Probe("notification_applied_after_write_failure")
+				}
 			}
 		}
 	}
@@ -583,6 +756,7 @@ func (w *world) restart() {
 	w.c.Eventf("%d restart", w.c.CurStep)
 	for _, m := range w.mbs {
 		m.idempotentOK = false
+		m.dedupUnknown = false
 		for s := range m.notar {
 			if m.notar[s].state == nsPending {
 				m.notar[s].state = nsLost
@@ -597,96 +771,116 @@ func matches(md *dblookupext.MiniblockMetadata, r *recInfo) bool {
 	return bytes.Equal(md.HeaderHash, r.hash) && md.HeaderNonce == r.nonce && md.Epoch == r.epoch && md.Round == r.round
 }
 
+// recordedAs finds the record (of any miniblock the transaction was ever recorded in) that md repeats.
+func recordedAs(t *txModel, md *dblookupext.MiniblockMetadata) (*mbModel, *recInfo) {
+	for _, m := range t.hist {
+		if !bytes.Equal(md.MiniblockHash, m.hash) {
+			continue
+		}
+		for k := len(m.history) - 1; k >= 0; k-- {
+			if matches(md, &m.history[k]) {
+				return m, &m.history[k]
+			}
+		}
+	}
+	return nil, nil
+}
+
 func (w *world) check() {
 	c := w.c
 	const site = "GetMiniblockMetadataByTxHash"
-	for _, m := range w.mbs {
-		if m.cur == nil {
+	ownedOK, ownedBad := map[*mbModel]int{}, map[*mbModel]int{}
+	for ti, t := range w.txList {
+		m := t.owner
+		if m == nil || m.cur == nil {
 			continue
 		}
-		allLatest := true
-		for j, tx := range m.mb.TxHashes {
-			md, err := w.repo.GetMiniblockMetadataByTxHash(tx)
-			if err != nil {
-				allLatest = false
-				c.Eventf("  mb%d tx%d -> err", m.id, j)
-				if !m.tainted {
-					c.Violate("C46", "lookup-fails", site, "tx %d of miniblock %d (recorded in block %d at step %d): lookup failed: %v", j, m.id, m.cur.block, m.cur.step, err)
-					return
-				}
-				continue
-			}
-			c.Eventf("  mb%d tx%d -> hdr=%x epoch=%d nonce=%d round=%d src=%d dst=%d", m.id, j, md.HeaderHash[:4], md.Epoch, md.HeaderNonce, md.Round,
-				md.NotarizedAtSourceInMetaNonce, md.NotarizedAtDestinationInMetaNonce)
-			c.FP(m.id, j, md.HeaderHash, md.NotarizedAtSourceInMetaNonce, md.NotarizedAtDestinationInMetaNonce)
-			if !bytes.Equal(md.MiniblockHash, m.hash) {
-				c.Violate("C46", "wrong-miniblock", site, "tx %d of miniblock %d: metadata of miniblock %x returned, expected %x", j, m.id, md.MiniblockHash, m.hash)
+		relaxed := m.tainted || t.ambiguous
+		md, err := w.repo.GetMiniblockMetadataByTxHash(t.hash)
+		if err != nil {
+			ownedBad[m]++
+			c.Eventf("  tx%d (mb%d) -> err", ti, m.id)
+			if !relaxed {
+				c.Violate("C46", "lookup-fails", site, "tx %d of miniblock %d (recorded in block %d at step %d): lookup failed: %v", ti, m.id, m.cur.block, m.cur.step, err)
 				return
 			}
-			if !matches(md, m.cur) {
-				allLatest = false
-				var stale *recInfo
-				for k := range m.history {
-					if matches(md, &m.history[k]) {
-						stale = &m.history[k]
-					}
+			continue
+		}
+		c.Eventf("  tx%d (mb%d) -> mb=%x hdr=%x epoch=%d nonce=%d round=%d src=%d dst=%d", ti, m.id, md.MiniblockHash[:3], md.HeaderHash[:4], md.Epoch, md.HeaderNonce, md.Round,
+			md.NotarizedAtSourceInMetaNonce, md.NotarizedAtDestinationInMetaNonce)
+		c.FP(ti, md.MiniblockHash, md.HeaderHash, md.NotarizedAtSourceInMetaNonce, md.NotarizedAtDestinationInMetaNonce)
+		if !bytes.Equal(md.MiniblockHash, m.hash) || !matches(md, m.cur) {
+			ownedBad[m]++
+			oldMb, stale := recordedAs(t, md)
+			switch {
+			case stale == nil && !bytes.Equal(md.MiniblockHash, m.hash):
+				c.Violate("C46", "wrong-miniblock", site, "tx %d: metadata of miniblock %x returned, which never held this transaction (expected miniblock %d = %x)", ti, md.MiniblockHash, m.id, m.hash)
+				return
+			case stale == nil:
+				c.Violate("C46", "wrong-header", site, "tx %d of miniblock %d: lookup names header %x epoch %d nonce %d round %d, which was never recorded with this miniblock (latest record: block %d header %x epoch %d nonce %d round %d)",
+					ti, m.id, md.HeaderHash[:4], md.Epoch, md.HeaderNonce, md.Round, m.cur.block, m.cur.hash[:4], m.cur.epoch, m.cur.nonce, m.cur.round)
+				return
+			case relaxed:
+				// a failed record may be missing / a re-commit by a repeated record is not asserted: an older record is acceptable
+			default:
+				cls := "competing-cross-epoch"
+				if stale.epoch == m.cur.epoch {
+					cls = "competing-same-epoch"
 				}
-				switch {
-				case m.tainted && stale != nil:
-					// a failed record may be missing
-				case stale == nil:
-					c.Violate("C46", "wrong-header", site, "tx %d of miniblock %d: lookup names header %x epoch %d nonce %d round %d, which was never recorded with this miniblock (latest record: block %d header %x epoch %d nonce %d round %d)",
-						j, m.id, md.HeaderHash[:4], md.Epoch, md.HeaderNonce, md.Round, m.cur.block, m.cur.hash[:4], m.cur.epoch, m.cur.nonce, m.cur.round)
-					return
-				default:
-					cls := "competing-cross-epoch"
-					if stale.epoch == m.cur.epoch {
-						cls = "competing-same-epoch"
-					}
-					c.Violate("C46", "names-dropped-block", site+"/"+cls, "tx %d of miniblock %d: lookup names block %d (header %x, epoch %d, recorded at step %d) but the most recent record of the miniblock is block %d (header %x, epoch %d, step %d)",
-						j, m.id, stale.block, stale.hash[:4], stale.epoch, stale.step, m.cur.block, m.cur.hash[:4], m.cur.epoch, m.cur.step)
-					return
+				if oldMb != m {
+					cls = "repacked-in-competing-block"
 				}
-			} else if !m.tainted {
+				c.Violate("C46", "names-dropped-block", site+"/"+cls, "tx %d: lookup names block %d (miniblock %d, header %x, epoch %d, recorded at step %d) but the most recent record of the transaction is block %d (miniblock %d, header %x, epoch %d, step %d)",
+					ti, stale.block, oldMb.id, stale.hash[:4], stale.epoch, stale.step, m.cur.block, m.id, m.cur.hash[:4], m.cur.epoch, m.cur.step)
+				return
+			}
+			if oldMb != m {
+				continue // the metadata of another miniblock: its notarization data is not this miniblock's
+			}
+		} else {
+			ownedOK[m]++
+			if !relaxed {
 				w.asserted++
 			}
-			// notarization data
-			got := [2]notif{{md.NotarizedAtSourceInMetaNonce, md.NotarizedAtSourceInMetaHash}, {md.NotarizedAtDestinationInMetaNonce, md.NotarizedAtDestinationInMetaHash}}
-			for s, name := range []string{"source", "destination"} {
-				if got[s].nonce != 0 || len(got[s].hash) != 0 {
-					founded := false
-					for _, n := range m.seen[s] {
-						if n.nonce == got[s].nonce && bytes.Equal(n.hash, got[s].hash) {
-							founded = true
-						}
-					}
-					if !founded {
-						c.Violate("C46", "notarization-unfounded", site+"/"+name, "tx %d of miniblock %d reports notarization at %s in meta nonce %d hash %x, but no delivered meta block notarized this miniblock at %s with these coordinates",
-							j, m.id, name, got[s].nonce, got[s].hash, name)
-						return
+		}
+		// notarization data (md is metadata of miniblock m here)
+		got := [2]notif{{md.NotarizedAtSourceInMetaNonce, md.NotarizedAtSourceInMetaHash}, {md.NotarizedAtDestinationInMetaNonce, md.NotarizedAtDestinationInMetaHash}}
+		for s, name := range []string{"source", "destination"} {
+			if got[s].nonce != 0 || len(got[s].hash) != 0 {
+				founded := false
+				for _, n := range m.seen[s] {
+					if n.nonce == got[s].nonce && bytes.Equal(n.hash, got[s].hash) {
+						founded = true
 					}
 				}
-				ns := &m.notar[s]
-				if ns.state != nsApplied || m.tainted {
-					continue
-				}
-				w.notarAsserted++
-				c.Probe("notarization_asserted_" + ns.order)
-				if got[s].nonce == 0 && len(got[s].hash) == 0 {
-					c.Violate("C46", "notarization-missing", site+"/"+ns.order, "tx %d of miniblock %d: record (step %d) and notarizing meta block (nonce %d) were both seen and a notification call followed, but notarization at %s is not reported",
-						j, m.id, m.cur.step, ns.val.nonce, name)
-					return
-				}
-				if got[s].nonce != ns.val.nonce || !bytes.Equal(got[s].hash, ns.val.hash) {
-					c.Violate("C46", "notarization-stale", site+"/"+ns.order, "tx %d of miniblock %d: notarization at %s reports meta nonce %d hash %x, the latest delivered notarizing meta block is nonce %d hash %x",
-						j, m.id, name, got[s].nonce, got[s].hash, ns.val.nonce, ns.val.hash)
+				if !founded {
+					c.Violate("C46", "notarization-unfounded", site+"/"+name, "tx %d of miniblock %d reports notarization at %s in meta nonce %d hash %x, but no delivered meta block notarized this miniblock at %s with these coordinates",
+						ti, m.id, name, got[s].nonce, got[s].hash, name)
 					return
 				}
 			}
+			ns := &m.notar[s]
+			if ns.state != nsApplied || relaxed {
+				continue
+			}
+			w.notarAsserted++
+			c.Probe("notarization_asserted_" + ns.order)
+			if got[s].nonce == 0 && len(got[s].hash) == 0 {
+				c.Violate("C46", "notarization-missing", site+"/"+ns.order, "tx %d of miniblock %d: record (step %d) and notarizing meta block (nonce %d) were both seen and a fault-free notification call followed, but notarization at %s is not reported",
+					ti, m.id, m.cur.step, ns.val.nonce, name)
+				return
+			}
+			if got[s].nonce != ns.val.nonce || !bytes.Equal(got[s].hash, ns.val.hash) {
+				c.Violate("C46", "notarization-stale", site+"/"+ns.order, "tx %d of miniblock %d: notarization at %s reports meta nonce %d hash %x, the latest delivered notarizing meta block is nonce %d hash %x",
+					ti, m.id, name, got[s].nonce, got[s].hash, ns.val.nonce, ns.val.hash)
+				return
+			}
 		}
-		if m.tainted && allLatest {
+	}
+	for _, m := range w.mbs {
+		// a failed record is confirmed only by transactions that must name it (never vacuously)
+		if m.tainted && ownedOK[m] > 0 && ownedBad[m] == 0 {
 			m.tainted = false
-			m.idempotentOK = false
 			c.Probe("failed_record_confirmed_by_lookup")
 		}
 	}
